@@ -1,0 +1,238 @@
+//go:build verif
+
+// Contracts for package allocator (properties C13, C14). Comment-only: read by /verif/bin/gsv,
+// never compiled into the package. Clause syntax: /verif/engine/contracts.go; method: /verif/DESIGN.md.
+
+package allocator
+
+//@ -- ghost state -------------------------------------------------------------------------
+//@ ghost pqElems map[ref]set[ref]        -- elements held by a priority queue
+//@ ghost pqAt map[ref]map[int]ref        -- element at each heap index of a queue
+//@ ghost pqDirty set[ref]                -- elements whose ordering fields changed since their last heap fix-up
+//@ ghost pqMax map[ref]int               -- per-peer limit the queue's comparator was built with
+//@ ghost cmpMax map[ref]int              -- per-peer limit captured by a comparator closure
+//@ ghost outcome map[ref]int             -- per result channel: 0 none yet, 1 granted, 2 failed
+//@ ghost grantedAll int                  -- history: bytes granted so far (all peers)
+//@ ghost releasedAll int                 -- history: bytes released so far (all peers)
+//@ ghost granted map[peer.ID]int         -- history per peer (reset to released when the peer is dropped)
+//@ ghost released map[peer.ID]int
+
+//@ onsend make:error(ch, n): requires outcome[ch] == 0
+//@ onsend error(ch, v): requires outcome[ch] == 0 ; outcome := upd(outcome, ch, ite(v == nil, 1, 2))
+//@ onwrite peerStatus.totalAllocated(s): pqDirty := add(pqDirty, s)
+//@ onwrite peerStatus.pendingAllocations(s): pqDirty := add(pqDirty, s)
+
+//@ -- the order the property describes (C14), over the current heap ---------------------------
+//@ pred hasPend(s *peerStatus) := len(s.pendingAllocations) > 0
+//@ pred headFits(s *peerStatus, max int) := s.totalAllocated + s.pendingAllocations[0].amount <= max
+//@ pred less(x *peerStatus, y *peerStatus, max int) :=
+//@      ite(!hasPend(x), !hasPend(y) && x.totalAllocated < y.totalAllocated,
+//@          !hasPend(y) || (headFits(x, max) && (!headFits(y, max) || x.pendingAllocations[0].allocIndex < y.pendingAllocations[0].allocIndex)))
+
+//@ pred elems(a *Allocator) := pqElems[a.peerStatusQueue]
+//@ pred pqOK(q pq.PQ) := forall s *peerStatus :: pqElems[q][s] ==> pqAt[q][s.index] == s
+//@ pred limitsOK(a *Allocator) := a.maxAllowedAllocatedTotal <= 9223372036854775808 && a.maxAllowedAllocatedPerPeer <= 9223372036854775808
+
+//@ -- representation invariant without the "no grantable waiter" part ------------------------
+//@ pred invS(a *Allocator) := a.peerStatuses != nil && a.peerStatusQueue != nil && limitsOK(a)
+//@    && pqOK(a.peerStatusQueue) && pqMax[a.peerStatusQueue] == a.maxAllowedAllocatedPerPeer
+//@    && (forall p peer.ID :: p in a.peerStatuses ==>
+//@           a.peerStatuses[p] != nil && a.peerStatuses[p].p == p && pqElems[a.peerStatusQueue][a.peerStatuses[p]])
+//@    && (forall s *peerStatus :: pqElems[a.peerStatusQueue][s] ==>
+//@           s != nil && isalloc(s) && s.p in a.peerStatuses && a.peerStatuses[s.p] == s)
+//@    && a.totalAllocatedAllPeers == Sum(pqElems[a.peerStatusQueue], peerStatus.totalAllocated)
+//@    && a.totalAllocatedAllPeers <= a.maxAllowedAllocatedTotal
+//@    && (forall s *peerStatus :: pqElems[a.peerStatusQueue][s] ==> s.totalAllocated <= a.maxAllowedAllocatedPerPeer)
+//@    && pendOK(a)
+
+//@ -- C13 history: what is reported equals what was granted minus what was released -------------
+//@ pred ptotal(a *Allocator, p peer.ID) := ite(p in a.peerStatuses, a.peerStatuses[p].totalAllocated, 0)
+//@ pred hist(a *Allocator) := a.totalAllocatedAllPeers == grantedAll - releasedAll
+//@    && (forall p peer.ID :: ptotal(a, p) == granted[p] - released[p])
+//@ -- what a step that only grants does to the history (used by the wake-up loop and its helper)
+//@ pred grantsOnly(a *Allocator) := releasedAll == old(releasedAll) && released == old(released)
+//@    && grantedAll - old(grantedAll) == a.totalAllocatedAllPeers - old(a.totalAllocatedAllPeers)
+//@    && (forall p peer.ID :: granted[p] - old(granted)[p] == ptotal(a, p) - old(ptotal(a, p)))
+
+//@ -- waiting allocations: bounded amounts, owner, no outcome yet, FIFO indices, distinct channels/indices
+//@ pred pendOK(a *Allocator) :=
+//@       (forall s *peerStatus, j int :: pqElems[a.peerStatusQueue][s] && slo(s.pendingAllocations) <= j && j < shi(s.pendingAllocations) ==>
+//@           sat(s.pendingAllocations, j).amount <= 9223372036854775807
+//@           && sat(s.pendingAllocations, j).p == s.p
+//@           && outcome[sat(s.pendingAllocations, j).response] == 0
+//@           && isalloc(sat(s.pendingAllocations, j).response)
+//@           && sat(s.pendingAllocations, j).allocIndex < a.nextAllocIndex)
+//@    && (forall s *peerStatus, j int, k int :: pqElems[a.peerStatusQueue][s] && slo(s.pendingAllocations) <= j && j < k && k < shi(s.pendingAllocations) ==>
+//@           sat(s.pendingAllocations, j).allocIndex < sat(s.pendingAllocations, k).allocIndex
+//@           && sat(s.pendingAllocations, j).response != sat(s.pendingAllocations, k).response)
+//@    && (forall s *peerStatus, t *peerStatus, j int, k int :: pqElems[a.peerStatusQueue][s] && pqElems[a.peerStatusQueue][t] && s != t
+//@           && slo(s.pendingAllocations) <= j && j < shi(s.pendingAllocations) && slo(t.pendingAllocations) <= k && k < shi(t.pendingAllocations) ==>
+//@           sat(s.pendingAllocations, j).allocIndex != sat(t.pendingAllocations, k).allocIndex
+//@           && sat(s.pendingAllocations, j).response != sat(t.pendingAllocations, k).response)
+
+//@ -- C14: no waiter could be granted now ---------------------------------------------------
+//@ pred fitsTotal(a *Allocator, s *peerStatus) := a.totalAllocatedAllPeers + s.pendingAllocations[0].amount <= a.maxAllowedAllocatedTotal
+//@ pred grantable(a *Allocator, s *peerStatus) := hasPend(s) && headFits(s, a.maxAllowedAllocatedPerPeer) && fitsTotal(a, s)
+//@    && (forall t *peerStatus :: pqElems[a.peerStatusQueue][t] && hasPend(t) && headFits(t, a.maxAllowedAllocatedPerPeer) ==>
+//@           !(t.pendingAllocations[0].allocIndex < s.pendingAllocations[0].allocIndex))
+//@ pred noneGrantable(a *Allocator) := forall s *peerStatus :: pqElems[a.peerStatusQueue][s] ==> !grantable(a, s)
+//@ pred clean() := forall s ref :: !pqDirty[s]
+//@ pred inv(a *Allocator) := invS(a) && clean() && noneGrantable(a) && hist(a)
+
+//@ -- assumed contracts of the priority queue (go-ipfs-pq over container/heap), specialised to *peerStatus ----
+//@ func github.com/ipfs/go-ipfs-pq.New
+//@   assumed
+//@   modifies pqElems, pqAt, pqMax, alloc
+//@   ensures result != nil && !old(isalloc(result)) && isalloc(result)
+//@   ensures pqElems == upd(old(pqElems), result, emptyset(ref)) && pqMax == upd(old(pqMax), result, cmpMax[cmp]) && pqOK(result)
+//@ func github.com/ipfs/go-ipfs-pq.PQ.Push
+//@   assumed
+//@   params e
+//@   requires !pqElems[self][e] && (forall s ref :: pqDirty[s] ==> s == e)
+//@   modifies pqElems, pqAt, pqDirty, peerStatus.index
+//@   ensures pqElems == upd(old(pqElems), self, add(old(pqElems)[self], e))
+//@   ensures pqDirty == del(old(pqDirty), e) && pqOK(self)
+//@ func github.com/ipfs/go-ipfs-pq.PQ.Update
+//@   assumed
+//@   params index
+//@   requires pqElems[self][pqAt[self][index]] && (forall s ref :: pqDirty[s] ==> s == pqAt[self][index])
+//@   modifies pqAt, pqDirty, peerStatus.index
+//@   ensures pqDirty == del(old(pqDirty), old(pqAt)[self][index]) && pqOK(self)
+//@ func github.com/ipfs/go-ipfs-pq.PQ.Remove
+//@   assumed
+//@   params index
+//@   requires pqElems[self][pqAt[self][index]] && (forall s ref :: pqDirty[s] ==> s == pqAt[self][index])
+//@   modifies pqElems, pqAt, pqDirty, peerStatus.index
+//@   ensures result == old(pqAt)[self][index]
+//@   ensures pqElems == upd(old(pqElems), self, del(old(pqElems)[self], result))
+//@   ensures pqDirty == del(old(pqDirty), result) && pqOK(self)
+//@ func github.com/ipfs/go-ipfs-pq.PQ.Len
+//@   assumed
+//@   modifies nothing
+//@   ensures result >= 0 && (result == 0 <==> (forall s ref :: !pqElems[self][s]))
+//@ func github.com/ipfs/go-ipfs-pq.PQ.Peek
+//@   assumed
+//@   modifies nothing
+//@   ensures (forall s ref :: !pqElems[self][s]) ==> result == nil
+//@   ensures (exists s ref :: pqElems[self][s]) ==> pqElems[self][result] && dyntype(result) == typetag("*peerStatus") && result == pqAt[self][0]
+//@   ensures clean() ==> (forall s *peerStatus :: pqElems[self][s] ==> !less(s, result, pqMax[self]))
+//@ func github.com/ipfs/go-ipfs-pq.PQ.Pop
+//@   assumed
+//@   requires (exists s ref :: pqElems[self][s]) && clean()
+//@   modifies pqElems, pqAt, peerStatus.index
+//@   ensures result == old(pqAt)[self][0] && old(pqElems)[self][result] && (forall s *peerStatus :: old(pqElems)[self][s] ==> !less(s, result, pqMax[self]))
+//@   ensures pqElems == upd(old(pqElems), self, del(old(pqElems)[self], result)) && pqOK(self)
+
+//@ func peerStatus.Index
+//@   inline
+//@ func peerStatus.SetIndex
+//@   inline
+
+//@ pred cmpArgOK(s *peerStatus) := s.totalAllocated <= 9223372036854775808 && (hasPend(s) ==> s.pendingAllocations[0].amount <= 9223372036854775807)
+//@ -- C14: the comparator is the order of the property ------------------------------------------
+//@ func makePeerStatusCompare
+//@   modifies alloc
+//@   ghost cmpMax := upd(old(cmpMax), result, maxPerPeer)
+//@   ensures result != nil
+//@ func makePeerStatusCompare.func1
+//@   requires a != nil && b != nil && dyntype(a) == typetag("*peerStatus") && dyntype(b) == typetag("*peerStatus")
+//@   requires maxPerPeer <= 9223372036854775808
+//@   requires cmpArgOK(a) && cmpArgOK(b)
+//@   overflow checked
+//@   modifies nothing
+//@   ensures result == less(a, b, maxPerPeer)
+
+//@ -- C13 / C14: the public operations -------------------------------------------------------------
+//@ func NewAllocator
+//@   requires maxAllowedAllocatedTotal <= 9223372036854775808 && maxAllowedAllocatedPerPeer <= 9223372036854775808
+//@   requires grantedAll == releasedAll && (forall p peer.ID :: granted[p] == released[p]) && clean()
+//@   modifies alloc, pqElems, pqAt, pqMax, cmpMax,
+//@            Allocator.maxAllowedAllocatedTotal, Allocator.maxAllowedAllocatedPerPeer, Allocator.totalAllocatedAllPeers,
+//@            Allocator.nextAllocIndex, Allocator.peerStatuses, Allocator.peerStatusQueue, Allocator.allocLk
+//@   ensures result != nil && inv(result)
+//@   ensures result.totalAllocatedAllPeers == 0 && (forall p peer.ID :: !(p in result.peerStatuses))
+
+//@ func Allocator.AllocatedForPeer
+//@   requires inv(a)
+//@   modifies nothing
+//@   ensures (p in a.peerStatuses) ==> result == granted[p] - released[p]
+//@   ensures !(p in a.peerStatuses) ==> result == 0
+//@   ensures result <= a.maxAllowedAllocatedPerPeer
+
+//@ func Allocator.AllocateBlockMemory
+//@   overflow checked
+//@   requires inv(a) && amount <= 9223372036854775807 && a.nextAllocIndex < 18446744073709551615
+//@   modifies alloc, a.totalAllocatedAllPeers, a.nextAllocIndex, peerStatus.p, peerStatus.totalAllocated, peerStatus.pendingAllocations, peerStatus.index,
+//@            a.peerStatuses[*], pqElems, pqAt, pqDirty, outcome
+//@   ghost grantedAll := old(grantedAll) + ite(outcome[result] == 1, amount, 0)
+//@   ghost granted := ite(outcome[result] == 1, upd(old(granted), p, old(granted)[p] + amount), old(granted))
+//@   ensures inv(a) && result != nil && !old(isalloc(result))
+//@   -- granted at once iff nothing of this peer is waiting and it fits under both limits; otherwise it waits, last in line
+//@   ensures let waiting := (old(p in a.peerStatuses)) && old(len(a.peerStatuses[p].pendingAllocations)) > 0 ::
+//@           let peerTotal := ite(old(p in a.peerStatuses), old(a.peerStatuses[p].totalAllocated), 0) ::
+//@           let fits := old(a.totalAllocatedAllPeers) + amount <= a.maxAllowedAllocatedTotal && peerTotal + amount <= a.maxAllowedAllocatedPerPeer ::
+//@           ((!waiting && fits) ==> outcome[result] == 1 && a.totalAllocatedAllPeers == old(a.totalAllocatedAllPeers) + amount
+//@                                   && a.peerStatuses[p].totalAllocated == peerTotal + amount)
+//@           && (!(!waiting && fits) ==> outcome[result] == 0 && a.totalAllocatedAllPeers == old(a.totalAllocatedAllPeers)
+//@                                   && len(a.peerStatuses[p].pendingAllocations) > 0
+//@                                   && sat(a.peerStatuses[p].pendingAllocations, shi(a.peerStatuses[p].pendingAllocations) - 1).response == result
+//@                                   && sat(a.peerStatuses[p].pendingAllocations, shi(a.peerStatuses[p].pendingAllocations) - 1).amount == amount
+//@                                   && sat(a.peerStatuses[p].pendingAllocations, shi(a.peerStatuses[p].pendingAllocations) - 1).allocIndex == old(a.nextAllocIndex))
+//@   ensures p in a.peerStatuses && releasedAll == old(releasedAll) && released == old(released)
+//@   ensures forall ch ref :: ch != result ==> outcome[ch] == old(outcome)[ch]
+
+//@ func Allocator.ReleaseBlockMemory
+//@   overflow checked
+//@   requires inv(a)
+//@   modifies a.totalAllocatedAllPeers, peerStatus.totalAllocated, peerStatus.pendingAllocations, peerStatus.index,
+//@            a.peerStatuses[*], pqElems, pqAt, pqDirty, outcome, grantedAll, granted
+//@   ghost releasedAll := old(releasedAll) + ite(old(p in a.peerStatuses), min(amount, old(a.peerStatuses[p].totalAllocated)), 0)
+//@   ghost released := ite(old(p in a.peerStatuses), upd(old(released), p, old(released)[p] + min(amount, old(a.peerStatuses[p].totalAllocated))), old(released))
+//@   ensures inv(a)
+//@   ensures !(old(p in a.peerStatuses)) ==> result != nil && a.totalAllocatedAllPeers == old(a.totalAllocatedAllPeers) && grantedAll == old(grantedAll)
+//@   ensures (old(p in a.peerStatuses)) ==> result == nil
+//@   use sum_member_le(pqElems[a.peerStatusQueue], peerStatus.totalAllocated, status)
+
+//@ func Allocator.ReleasePeerMemory
+//@   overflow checked
+//@   requires inv(a)
+//@   modifies a.totalAllocatedAllPeers, peerStatus.totalAllocated, peerStatus.pendingAllocations, peerStatus.index,
+//@            a.peerStatuses[*], pqElems, pqAt, pqDirty, outcome, grantedAll, granted
+//@   ghost releasedAll := old(releasedAll) + ite(old(p in a.peerStatuses), old(a.peerStatuses[p].totalAllocated), 0)
+//@   ghost released := ite(old(p in a.peerStatuses), upd(old(released), p, old(released)[p] + old(a.peerStatuses[p].totalAllocated)), old(released))
+//@   ensures inv(a)
+//@   ensures !(old(p in a.peerStatuses)) ==> result != nil && a.totalAllocatedAllPeers == old(a.totalAllocatedAllPeers) && grantedAll == old(grantedAll)
+//@   ensures (old(p in a.peerStatuses)) ==> result == nil
+//@   use sum_member_le(old(pqElems[a.peerStatusQueue]), peerStatus.totalAllocated, status)
+//@   -- every waiting allocation of the released peer fails at once
+//@   ensures (old(p in a.peerStatuses)) ==> (forall j int :: old(slo(a.peerStatuses[p].pendingAllocations)) <= j && j < old(shi(a.peerStatuses[p].pendingAllocations)) ==>
+//@              outcome[old(sat(a.peerStatuses[p].pendingAllocations, j)).response] == 2)
+//@   loop 1 invariant (forall j int :: slo(status.pendingAllocations) <= j && j < slo(status.pendingAllocations) + idx1 ==> outcome[sat(status.pendingAllocations, j).response] == 2)
+//@   loop 1 invariant (forall ch ref :: outcome[ch] != old(outcome)[ch] ==>
+//@              (exists j int :: slo(status.pendingAllocations) <= j && j < slo(status.pendingAllocations) + idx1 && ch == sat(status.pendingAllocations, j).response))
+
+//@ func Allocator.processPendingAllocations
+//@   overflow checked
+//@   requires invS(a) && clean()
+//@   modifies a.totalAllocatedAllPeers, peerStatus.totalAllocated, peerStatus.pendingAllocations, peerStatus.index,
+//@            a.peerStatuses[*], pqElems, pqAt, pqDirty, outcome, grantedAll, granted
+//@   ensures invS(a) && clean() && noneGrantable(a) && grantsOnly(a)
+//@   ensures forall ch ref :: old(outcome)[ch] != 0 ==> outcome[ch] == old(outcome)[ch]
+//@   loop 1 invariant invS(a) && clean() && grantsOnly(a)
+//@   loop 1 invariant forall ch ref :: old(outcome)[ch] != 0 ==> outcome[ch] == old(outcome)[ch]
+
+//@ func Allocator.processNextPendingAllocationForPeer
+//@   overflow checked
+//@   requires invS(a) && clean() && pqElems[a.peerStatusQueue][nextPeer] && len(nextPeer.pendingAllocations) > 0
+//@   modifies a.totalAllocatedAllPeers, nextPeer.totalAllocated, nextPeer.pendingAllocations, outcome, pqDirty
+//@   ghost grantedAll := old(grantedAll) + ite(result, old(nextPeer.pendingAllocations[0].amount), 0)
+//@   ghost granted := ite(result, upd(old(granted), nextPeer.p, old(granted)[nextPeer.p] + old(nextPeer.pendingAllocations[0].amount)), old(granted))
+//@   ensures invS(a) && grantsOnly(a)
+//@   -- grants exactly when the head fits under both limits; grants only the head, removes only the head
+//@   ensures result == (old(fitsTotal(a, nextPeer)) && old(headFits(nextPeer, a.maxAllowedAllocatedPerPeer)))
+//@   ensures result ==> outcome == upd(old(outcome), old(nextPeer.pendingAllocations[0].response), 1)
+//@                      && nextPeer.pendingAllocations == old(nextPeer.pendingAllocations[1:])
+//@                      && nextPeer.totalAllocated == old(nextPeer.totalAllocated) + old(nextPeer.pendingAllocations[0].amount)
+//@                      && pqDirty == add(old(pqDirty), nextPeer)
+//@   ensures !result ==> outcome == old(outcome) && pqDirty == old(pqDirty) && a.totalAllocatedAllPeers == old(a.totalAllocatedAllPeers)
+//@                      && nextPeer.totalAllocated == old(nextPeer.totalAllocated) && nextPeer.pendingAllocations == old(nextPeer.pendingAllocations)
